@@ -836,7 +836,7 @@ func TestVerifC33(t *testing.T) {
 	r.Set("functions_total", len(parser.Functions))
 	r.Set("functions_without_any_accepted_call", never)
 	if !r.Expired() {
-		if created.Load()*4 < evals.Load() || nonEmpty.Load()*10 < evals.Load() {
+		if created.Load()*4 < evals.Load() || nonEmpty.Load()*20 < evals.Load() {
 			t.Fatalf("vacuous: %d evaluations, %d past construction, %d non-empty", evals.Load(), created.Load(), nonEmpty.Load())
 		}
 		for _, fn := range never {
